@@ -831,7 +831,7 @@ B("C04", "t2b-reversed", (UTL, '    return "".join(map(str, tup))', '    return 
 B("C04", "add-counts-reversed", (MEAS, "            for bitvalue in bitstring:\n                measurement.append(int(bitvalue))", "            for bitvalue in reversed(bitstring):\n                measurement.append(int(bitvalue))"), rule="C04-D2")
 B("C04", "bit-matrix-column-major", (MEAS, "    return bitstring_1d_array.astype(int).reshape(-1, n_qubits)", "    return bitstring_1d_array.astype(int).reshape(n_qubits, -1).T"), rule="C04-D2")
 B("C04", "parity-columns-mirrored", (PAR, "    bitstring_subset = bitstrings_vector[:, np.fromiter(marked_qubits, dtype=int)]", "    bitstring_subset = bitstrings_vector[:, -1 - np.fromiter(marked_qubits, dtype=int)]"), rule="C04-D2")
-B("C04", "frequencies-sorted-separately", (MEAS, "        np.fromiter(bitstring_frequencies.values(), dtype=int)\n        * parity", "        np.fromiter(sorted(bitstring_frequencies.values()), dtype=int)\n        * parity"), rule="C04-D2")
+B("C04", "frequencies-sorted-separately", (MEAS, "        np.fromiter(bitstring_frequencies.values(), dtype=int) * parity", "        np.fromiter(sorted(bitstring_frequencies.values()), dtype=int) * parity"), rule="C04-D2")
 B("C04", "exact-distribution-digits-descending", (DIST, "    keys = product([0, 1], repeat=int(np.log2(len(prob_distribution))))", "    keys = product([1, 0], repeat=int(np.log2(len(prob_distribution))))"), rule="C04-D3")
 B("C04", "exact-distribution-key-reversed", (DIST, "        key: float(value) for key, value in zip(keys, prob_distribution)", "        key[::-1]: float(value) for key, value in zip(keys, prob_distribution)"), rule="C04-D3")
 B("C04", "string-keys-reversed", (DIST, 'res_dict[tuple(map(int, key if "," not in key else key.split(",")))] = value', 'res_dict[tuple(map(int, key[::-1] if "," not in key else key.split(",")))] = value'), rule="C04-D3")
@@ -1192,3 +1192,78 @@ T("C18", "predicate-guard-as-if", ("decompositions/_orquestra_decompositions.py"
 B("C14", "empty-batch-lets-nonpositive-count-through", (RUN, '        if (isinstance(n_samples, int) and n_samples <= 0) or any(\n            n <= 0 for n in samples_per_circuit\n        ):', "        if any(n <= 0 for n in samples_per_circuit):"), rule="C14-D1")
 T("C14", "scalar-guard-as-own-statement", (RUN, '        if (isinstance(n_samples, int) and n_samples <= 0) or any(\n            n <= 0 for n in samples_per_circuit\n        ):', "        if isinstance(n_samples, int) and n_samples <= 0:\n            raise ValueError(f\"Number of samples has to be positive, got {n_samples}\")\n        if any(n <= 0 for n in samples_per_circuit):"))
 B("C18", "production-uses-rx-for-ry", ("decompositions/_orquestra_decompositions.py", "gate_decomposition = [RZ(phi), RY(theta), RZ(lambda_)]", "gate_decomposition = [RZ(phi), RZ(theta), RZ(lambda_)]"), rule="C18-D")
+
+
+# ----------------------------------------------------------------------------- round 4 rules: breaking variants and benign twins
+B("C12", "flip-swaps-two-axes-only", ("wavefunction.py", "        .transpose(*reversed(range(num_bits)))", "        .swapaxes(0, -1)"), rule="C12-D6")
+B("C12", "flip-no-axis-permutation", ("wavefunction.py", "        .transpose(*reversed(range(num_bits)))\n", ""), rule="C12-D6")
+T("C12", "twin-flip-plain-transpose", ("wavefunction.py", "        .transpose(*reversed(range(num_bits)))", "        .transpose()"))
+T("C12", "twin-flip-T-and-ravel", ("wavefunction.py", "        .transpose(*reversed(range(num_bits)))\n        .reshape(2**num_bits)", "        .T.reshape(-1)"))
+B("C13", "draw-keys-sorted", ("utils.py", "        keys_as_array[:] = list(probability_distribution.keys())", "        keys_as_array[:] = sorted(probability_distribution.keys())"), rule="C13-D6")
+B("C13", "draw-weights-reversed", ("utils.py", "            p=list(probability_distribution.values()),", "            p=list(probability_distribution.values())[::-1],"), rule="C13-D6")
+T("C13", "twin-draw-keys-as-tuple", ("utils.py", "        keys_as_array[:] = list(probability_distribution.keys())", "        keys_as_array[:] = tuple(probability_distribution.keys())"))
+B("C11", "precision-present-by-truthiness", ("utils.py", '        if "precision" in dictionary:', '        if dictionary.get("precision"):'), rule="C11-D5")
+T("C11", "twin-precision-present-is-not-none", ("utils.py", '        if "precision" in dictionary:', '        if dictionary.get("precision") is not None:'))
+B("C10", "correlations-sized-by-len-of-operator", (MEAS, "        correlations = np.zeros((len(ising_operator.terms),) * 2, dtype=complex)", "        correlations = np.zeros((len(ising_operator),) * 2, dtype=complex)"), rule="C10-D1")
+T("C10", "twin-correlations-size-in-a-local", (MEAS, "        correlations = np.zeros((len(ising_operator.terms),) * 2, dtype=complex)", "        n_terms = len(ising_operator.terms)\n        correlations = np.zeros((n_terms, n_terms), dtype=complex)"))
+B("C08", "inverse-memo-on-receiver", ("circuits/_circuit.py", """        try:
+            return type(self)(
+                operations=[
+                    op.gate.dagger(*op.qubit_indices)
+                    for op in reversed(self.operations)
+                ],
+                n_qubits=self.n_qubits,
+            )""", """        try:
+            self._inverse = type(self)(
+                operations=[
+                    op.gate.dagger(*op.qubit_indices)
+                    for op in reversed(self.operations)
+                ],
+                n_qubits=self.n_qubits,
+            )
+            return self._inverse"""), rule="C08-D5")
+B("C18", "rules-taken-from-the-end", ("decompositions/_decomposition.py", "    current_rule, *remaining_rules = decomposition_rules", "    *remaining_rules, current_rule = decomposition_rules"), rule="C18-D1")
+B("C02", "zero-angle-shortcut-wrong-size", (MAT, """def xx_matrix(angle):
+    return""", """def _identity_at_zero(factory):
+    def _factory(angle):
+        if angle == 0:
+            return i_matrix()
+        return factory(angle)
+
+    return _factory
+
+
+@_identity_at_zero
+def xx_matrix(angle):
+    return"""), rule="C02-D2")
+T("C02", "twin-zero-angle-shortcut-right-size", (MAT, """def rx_matrix(angle):
+    return""", """def _identity_at_zero(factory):
+    def _factory(angle):
+        if angle == 0:
+            return i_matrix()
+        return factory(angle)
+
+    return _factory
+
+
+@_identity_at_zero
+def rx_matrix(angle):
+    return"""))
+B("C01", "lifted-matrix-contiguous-shortcut", ("circuits/_gates.py", """    def lifted_matrix(self, num_qubits):
+        return (""", """    def lifted_matrix(self, num_qubits):
+        if self.gate.free_symbols and max(self.qubit_indices) - min(self.qubit_indices) + 1 == self.gate.num_qubits:
+            return sympy.kronecker_product(sympy.eye(2 ** min(self.qubit_indices)), self.gate.matrix, sympy.eye(2 ** (num_qubits - max(self.qubit_indices) - 1)))
+        return ("""), rule="C01-D5")
+B("C14", "single-circuit-batch-skips-length-check", (RUN, """        samples_per_circuit = (
+            len(circuits_batch) * [n_samples]
+            if isinstance(n_samples, int)
+            else n_samples
+        )
+        if len(samples_per_circuit) != len(circuits_batch):""", """        if len(circuits_batch) == 1:
+            return [self.run_and_measure(circuits_batch[0], n_samples if isinstance(n_samples, int) else n_samples[0])]
+        samples_per_circuit = (
+            len(circuits_batch) * [n_samples]
+            if isinstance(n_samples, int)
+            else n_samples
+        )
+        if len(samples_per_circuit) != len(circuits_batch):"""), rule="C14-D1")
